@@ -10,6 +10,7 @@ Definition B_KIND := 0%N.     Definition B_EVENT := 1%N.    Definition B_CASH :=
 Definition B_HOLDINGS := 3%N. Definition B_PENDING := 4%N.  Definition B_QUOTES := 5%N.
 Definition B_LOG := 6%N.      Definition B_FAILED := 7%N.   Definition B_CALLS := 8%N.
 Definition B_DELIVERED := 9%N. Definition B_ORDERS := 10%N. Definition B_GETTERS := 11%N.
+Definition B_STATE := 12%N.
 
 Inductive bop :=
 | BDeposit (x : float)
@@ -81,7 +82,15 @@ Definition fw_mask (qk : quirks) (st : bstep) (fw : list (uorder float)) : N :=
 
 Definition kind_bad : N := bit B_KIND false.
 
-Definition bstep_mask (qk : quirks) (st : bstep) : N :=
+(* the reachable-state invariant of the model (c05_no_zero / c05_holdings_reconcile: keys unique, no zero position is
+   ever stored), evaluated on the states the implementation was OBSERVED in: the step-wise comparison starts from the
+   implementation's own pre-state, so a state the model can never reach has to be reported here — the theorems that
+   speak of "a held symbol" or "a long portfolio" are about reachable states *)
+Definition binv_ok (b : broker float) : bool :=
+  snodup (skeys (b_holdings b)) && snodup (skeys (b_pending b)) && snodup (skeys (b_quotes b))
+  && forallb (fun kv => negb (PrimFloat.eqb (snd kv) 0)) (b_holdings b).
+
+Definition bstep_mask_steps (qk : quirks) (st : bstep) : N :=
   let b := bs_pre st in
   match bs_op st, bs_obs st with
   | BDeposit x, OCash e =>
@@ -125,3 +134,9 @@ Definition bstep_mask (qk : quirks) (st : bstep) : N :=
       bit B_GETTERS (feq (calculate_trade_costs (b_costs b) qty value) x)
   | _, _ => kind_bad
   end.
+
+Definition bstep_mask (qk : quirks) (st : bstep) : N :=
+  N.lor (bit B_STATE (binv_ok (bs_pre st) &&
+                      match bs_obs st with OPanic => true (* the object may be half-updated after unwinding *)
+                                      | _ => binv_ok (bs_post st) end))
+        (bstep_mask_steps qk st).
